@@ -302,6 +302,28 @@ class CFG:
         reach_other = self.reachable(starts, blocked=[n]) if starts else set()
         return target not in reach_other
 
+    def path_conditions(self, target: int, fn: ast.FunctionDef | None = None, keep: Iterable[str] = ()) -> set[tuple[str, bool]]:
+        """(canonical test text, truth value) for every test whose outcome is fixed on all paths from ENTRY to `target`.
+        With `fn`, single-assignment locals in the tests are inlined first."""
+        from .match import canon_test, inline, last_assignments
+
+        env = {k: v for k, v in last_assignments(fn).items() if k not in set(keep)} if fn is not None else {}
+        out: set[tuple[str, bool]] = set()
+        for nid, node in self.nodes.items():
+            if node.kind != "test" or nid == target:
+                continue
+            for lab, val in (("T", True), ("F", False)):
+                if any(l == lab for _, l in self.succ[nid]) and self.dominated_by_edge(target, (nid, lab)):
+                    test = inline(node.ast, env) if env else node.ast
+                    parts = [test]
+                    # a conjunction that is true makes each conjunct true; a disjunction that is false makes each disjunct false
+                    if isinstance(test, ast.BoolOp) and ((isinstance(test.op, ast.And) and val) or (isinstance(test.op, ast.Or) and not val)):
+                        parts = list(test.values)
+                    for p in parts:
+                        t, pol = canon_test(p)
+                        out.add((t, val if pol else not val))
+        return out
+
     def stmts_text(self, ids: Iterable[int]) -> list[str]:
         return [self.nodes[i].text() for i in ids]
 
